@@ -1,11 +1,16 @@
 #!/bin/bash
-# runs every registered quick (or $1) check and prints one line per property
+# runs every registered quick (or $1) check and prints one line per property, followed by the
+# per-harness statistics and anything that is not a pass
 TIER=${1:-quick}
-cd /verif
-for id in $(python3 -c "import json;print(' '.join(c['property_id'] for c in json.load(open('MANIFEST.json'))['checks']))"); do
+shift
+cd "$(dirname "$0")/.."
+IDS="$@"
+[ -n "$IDS" ] || IDS=$(python3 -c "import json;print(' '.join(c['property_id'] for c in json.load(open('MANIFEST.json'))['checks']))")
+for id in $IDS; do
   s=$(date +%s)
   out=$(bin/check $id --tier $TIER 2>&1)
   rc=$?
   e=$(date +%s)
   echo "$id rc=$rc $((e-s))s $(echo "$out" | grep -c '^KNOWN-FINDING') known; $(echo "$out" | grep 'VIOLATION\|INCONCLUSIVE\|UNCONFIRMED' | head -2 | tr '\n' ' ')"
+  echo "$out" | grep '^harness \|UNSUPPORTED\|UNREACHED\|unwind\|budget\|native validation' | cut -c1-260 | sed 's/^/    /'
 done
